@@ -137,6 +137,9 @@ type seqProp struct {
 	Rule        string
 	// Filter says whether a sequence is worth running at all (property domain)
 	Filter func(ops []r69.Op) bool
+	// Scripts: explicit (document, operation list) cases run INSTEAD of the depth-first enumeration:
+	// long patches built from a repeated step and one probe (the patch-length dimension)
+	Scripts func() []seqScript
 	// PkgLimit: value of the v5 package-level AccumulatedCopySizeLimit while the
 	// phase runs with explicit per-call options (which must take precedence)
 	PkgLimit int64
@@ -156,8 +159,61 @@ func stateKey(opt r69.Options, d *rj.Value) string {
 	return optString(opt) + "|" + string(rj.Compact(d, rj.PrintOpts{KeepLits: true, KeepNameLits: true}))
 }
 
+type seqScript struct {
+	Doc string
+	Ops []r69.Op
+}
+
+// runScripts judges every explicit case of p.Scripts under every option set of p.
+func runScripts(ctx *core.Ctx, p *seqProp) {
+	scripts := p.Scripts()
+	trans := ctx.Counter("sequences")
+	nscr := ctx.Counter("script_cases")
+	docs := map[string]*rj.Value{}
+	for _, sc := range scripts {
+		if docs[sc.Doc] == nil {
+			docs[sc.Doc] = rj.MustParse(sc.Doc)
+		}
+	}
+	for _, opt := range p.Opts {
+		opt := opt
+		impl.SetGlobals(p.Legacy, p.UseDefaults, opt)
+		var restore func()
+		if !p.Legacy && !p.UseDefaults {
+			restore = impl.SetV5HostileDefaults(opt)
+		}
+		ctx.Parallel(len(scripts), func(w *core.Worker, i int) {
+			sc := scripts[i]
+			if p.Filter != nil && !p.Filter(sc.Ops) {
+				return
+			}
+			r := &seqRun{p: p, ctx: ctx, w: w, doc: docs[sc.Doc], dtxt: sc.Doc, ops: sc.Ops, opt: opt}
+			r.ref = r69.Apply(r.doc, sc.Ops, opt)
+			r.obs = r.exec("")
+			atomic.AddInt64(trans, 1)
+			atomic.AddInt64(nscr, 1)
+			r.classify()
+			p.Judge(r)
+			if r.ref.OK() {
+				ctx.AddState(stateKey(opt, r.ref.Doc))
+			}
+		})
+		if restore != nil {
+			restore()
+		}
+	}
+	ctx.Rep.Trans = atomic.LoadInt64(trans)
+	ctx.Rep.Validated = atomic.LoadInt64(&nExec)
+	ctx.Rep.Evals = ctx.Rep.Validated
+	ctx.Rep.Nontrivial = atomic.LoadInt64(ctx.Counter("in_domain_sequences"))
+}
+
 // runSeq explores p exhaustively to p.Depth.
 func runSeq(ctx *core.Ctx, p *seqProp) {
+	if p.Scripts != nil {
+		runScripts(ctx, p)
+		return
+	}
 	type unit struct {
 		doc  *rj.Value
 		dtxt string
